@@ -290,6 +290,8 @@ def encode_reports(rep, f, c):
     fn = 'Encoding::encode'
     b = f.body(fn)
     if b is None:
+        if c == 'noalloc':
+            return None      # Encoding::encode returns a Cow and exists only with the `alloc` feature
         rep.undecidable('C20-D2.encode', fn, 'not found', None, c)
         return 0
     heads = P.loop_heads(b)
@@ -330,5 +332,6 @@ def run(rep, facts, tier):
         run_cfg(rep, f, c)
         r_xud.run(rep, f, c)
         ne = encode_reports(rep, f, c)
-        rep.floor('C20-D2.encode', 'returning paths of Encoding::encode', ne, 3, c)
+        if ne is not None:
+            rep.floor('C20-D2.encode', 'returning paths of Encoding::encode', ne, 3, c)
     return ('proof', MANIFEST['text'], ['Encoding Standard encoding list / output-encoding rule transcribed in rules/p_c20.py (SPEC, TO_UTF8, NOT_ASCII_COMPAT)'])
